@@ -60,7 +60,7 @@ fn mode_name(m: AllocMode) -> &'static str {
 }
 
 fn rw_family<S: Strat>(out: &mut Vec<Inst>, fill: bool) {
-    let path = if S::NAME == "nofast" { "nofast" } else if fill { "full" } else { "fast" };
+    let path = if S::NAME == "nofast" { "nofast" } else if S::NAME == "rwlock" { "rwlock" } else if fill { "full" } else { "fast" };
     for mode in [Fresh, Reuse] {
         let m = mode_name(mode);
         let core = &["C01", "C02", "C03", "C07", "C08", "C09", "C13"];
@@ -94,7 +94,7 @@ fn more_family<
     out: &mut Vec<Inst>,
     fill: bool,
 ) {
-    let path = if S::NAME == "nofast" { "nofast" } else if fill { "full" } else { "fast" };
+    let path = if S::NAME == "nofast" { "nofast" } else if S::NAME == "rwlock" { "rwlock" } else if fill { "full" } else { "fast" };
     let slots = crate::api::SLOTS;
     for mode in [Fresh, Reuse] {
         let m = mode_name(mode);
@@ -473,5 +473,17 @@ pub fn all() -> Vec<Inst> {
     more_family::<DefaultStrategy>(&mut v, false);
     more_family::<DefaultStrategy>(&mut v, true);
     more_family::<NoFast>(&mut v, false);
+    // The lock-based reference strategy is internal to the crate ("no guarantees"); only C20
+    // quantifies over it concurrently ("every strategy that can be default-constructed"), so only
+    // the serialization harness runs with it. (Exploring its other operations reports a data
+    // race in its compare_and_swap failure path — Relaxed failure ordering, then an increment —
+    // which is outside every listed property.)
+    type RwL = rt::sync::RwLock<()>;
+    let mut rwl = Vec::new();
+    more_family::<RwL>(&mut rwl, false);
+    for mut x in rwl.into_iter().filter(|i| i.mode == Fresh && i.name.starts_with("serde_conc")) {
+        x.props = vec!["C20"];
+        v.push(x);
+    }
     v
 }
